@@ -17,8 +17,8 @@ var plans = map[string]propPlan{
 	},
 	"C11": {
 		Engine:   "powsim",
-		Quick:    []flavPlan{{"plain", 12000, 200}, {"auto", 2000, 100}},
-		Thorough: []flavPlan{{"plain", 400000, 1000}, {"race", 20000, 200}, {"auto", 40000, 500}},
+		Quick:    []flavPlan{{"plain", 12000, 200}, {"auto", 2000, 100}, {"386", 1500, 100}},
+		Thorough: []flavPlan{{"plain", 400000, 1000}, {"race", 20000, 200}, {"auto", 40000, 500}, {"386", 40000, 500}},
 		Rule: "one evaluation = one simulated uncancelled v1 Mine call (workers 1..16, data, target at / one ulp around 3^k/len or trivially low, real or crafted hashes, scheduling strategy from the run seed); the returned nonce is judged by the reference score and by pow.Score; " +
 			"non-trivial if at least two actor switches occurred and a worker found a nonce; distinct = distinct (actor, yield site) sequences among those",
 		Real: powReal, Stub: powStub,
@@ -26,8 +26,8 @@ var plans = map[string]propPlan{
 	},
 	"C12": {
 		Engine:   "powsim",
-		Quick:    []flavPlan{{"plain", 12000, 200}, {"auto", 2000, 100}},
-		Thorough: []flavPlan{{"plain", 250000, 1000}, {"race", 20000, 200}, {"auto", 40000, 500}},
+		Quick:    []flavPlan{{"plain", 12000, 200}, {"auto", 2000, 100}, {"386", 1500, 100}},
+		Thorough: []flavPlan{{"plain", 250000, 1000}, {"race", 20000, 200}, {"auto", 40000, 500}, {"386", 40000, 500}},
 		Rule: "one evaluation = one simulated uncancelled v2 Mine call (single worker with pass-over scan, or 1..16 workers for soundness; len*target at / around 3^s, up to 2^64-1; real or crafted hashes at T-1, T, T+1, Q, Q+1, one-zero-fewer lanes on both sides of the threshold, lanes 0 / 63); " +
 			"non-trivial if at least two actor switches occurred and a worker found a nonce; distinct = distinct (actor, yield site) sequences among those",
 		Real: powReal, Stub: powStub,
